@@ -125,6 +125,10 @@ class Sym(object):
                    for k in expr.keywords]
             if name == 'getattr' and len(args) == 3 and args[2] == 'None':
                 return 'getattr(%s,%s)' % (args[0], args[1])
+            if name == 'getattr' and len(args) == 2 and \
+                    args[1].startswith("'") and args[1].endswith("'") and \
+                    args[1][1:-1].isidentifier():
+                return '%s.%s' % (args[0], args[1][1:-1])
             return '%s(%s)' % (name, ','.join(args + sorted(kws)))
         if isinstance(expr, (ast.SetComp, ast.ListComp, ast.GeneratorExp)):
             gen = expr.generators[0]
@@ -148,6 +152,22 @@ class Sym(object):
             self.stmt(stmt)
 
     def stmt(self, stmt):
+        if isinstance(stmt, ast.For) and \
+                isinstance(stmt.iter, (ast.Tuple, ast.List)) and \
+                stmt.iter.elts and isinstance(stmt.target, ast.Name) and \
+                all(isinstance(e, ast.Constant) for e in stmt.iter.elts):
+            # a loop over literals is unrolled
+            var = stmt.target.id
+            saved = self.env.get(var)
+            keep = dict(self.env)
+            for elt in stmt.iter.elts:
+                self.env = dict(keep)
+                self.env[var] = repr(elt.value)
+                self.walk(stmt.body)
+            self.env = keep
+            if saved is not None:
+                self.env[var] = saved
+            return
         if isinstance(stmt, ast.For):
             dom = self.term(stmt.iter)
             var = N.txt(stmt.target)
@@ -160,6 +180,10 @@ class Sym(object):
                 self.env.pop(var, None)
             else:
                 self.env[var] = saved
+            return
+        if isinstance(stmt, ast.If) and isinstance(stmt.test, ast.Constant) \
+                and stmt.test.value is True:
+            self.walk(stmt.body)        # block of an inlined helper
             return
         if isinstance(stmt, ast.If):
             cond = self.term(stmt.test)
@@ -459,10 +483,18 @@ def _ports(ctx):
     prod_envs = None
     for sub in K.walk_no_nested(alloc.node):
         if isinstance(sub, ast.If) and isinstance(sub.test, ast.Compare) \
-                and isinstance(sub.test.ops[0], ast.In) and \
-                'PROD_PORT_LOW' in ast.unparse(sub.body[0]):
-            prod_envs = set(try_fold(index, rt, sub.test.comparators[0],
-                                     ()) or ())
+                and len(sub.test.ops) == 1 and \
+                isinstance(sub.test.ops[0], (ast.In, ast.NotIn)):
+            def mentions_prod(body):
+                return any(isinstance(n, ast.Name) and
+                           n.id == 'PROD_PORT_LOW'
+                           for stmt in body for n in ast.walk(stmt))
+            inn = isinstance(sub.test.ops[0], ast.In)
+            mine = sub.body if inn else sub.orelse
+            other = sub.orelse if inn else sub.body
+            if mentions_prod(mine) and not mentions_prod(other):
+                prod_envs = set(try_fold(
+                    index, rt, sub.test.comparators[0], ()) or ())
     net = index.module(NET)
     table = net.consts.get('_SET_BY_ENVIRONMENT')
     ctx.require(prod_envs is not None and isinstance(table, ast.Dict),
